@@ -434,6 +434,7 @@ type FuncContract struct {
 	Panics   []string // allowed explicit panic types
 	Measure  *Clause  // recursion measure
 	HitSites map[string]bool // call sites counted by hits("name#k")
+	ResSites map[string]bool // call sites whose last result is recorded for lastresult("name#k")
 	AtCalls  []*Clause // assertions after the k-th call of a callee: Tag2 = "callee#k"
 	Assumes  []*Clause // loop-head assumptions (listed in evidence, not proved)
 	Steps    []*Clause // per-iteration relations, checked at every back edge; prev(e) is e at the head of the iteration
@@ -470,6 +471,7 @@ type ContractSet struct {
 }
 
 var hitsRe = regexp.MustCompile(`hits\("([^"]+)"\)`)
+var lastResRe = regexp.MustCompile(`lastresult\("([^"]+)"\)`)
 
 var clauseKeywords = map[string]bool{
 	"spec": true, "rec": true, "axiom": true, "lemma": true, "func": true, "props": true,
@@ -767,6 +769,12 @@ func (cs *ContractSet) ParseContractText(pkgPath, file, text string) error {
 					}
 					cur.HitSites[m[1]] = true
 				}
+				for _, m := range lastResRe.FindAllStringSubmatch(rc.rest, -1) {
+					if cur.ResSites == nil {
+						cur.ResSites = map[string]bool{}
+					}
+					cur.ResSites[m[1]] = true
+				}
 				tag, props, body := parseTags(rc.rest)
 				var more []SExpr
 				if rc.kw == "measure" {
@@ -801,6 +809,12 @@ func (cs *ContractSet) ParseContractText(pkgPath, file, text string) error {
 						cur.HitSites = map[string]bool{}
 					}
 					cur.HitSites[m[1]] = true
+				}
+				for _, m := range lastResRe.FindAllStringSubmatch(rc.rest, -1) {
+					if cur.ResSites == nil {
+						cur.ResSites = map[string]bool{}
+					}
+					cur.ResSites[m[1]] = true
 				}
 				fs := strings.Fields(rc.rest)
 				if len(fs) < 4 || fs[0] != "call" {
@@ -838,6 +852,12 @@ func (cs *ContractSet) ParseContractText(pkgPath, file, text string) error {
 						cur.HitSites = map[string]bool{}
 					}
 					cur.HitSites[m[1]] = true
+				}
+				for _, m := range lastResRe.FindAllStringSubmatch(rc.rest, -1) {
+					if cur.ResSites == nil {
+						cur.ResSites = map[string]bool{}
+					}
+					cur.ResSites[m[1]] = true
 				}
 				fs := strings.Fields(rc.rest)
 				if len(fs) < 3 {
